@@ -8,10 +8,30 @@ SITE_VAR = "offending-identifier"
 SITE_OP = "98765"
 
 
+HELPERS = ["(define (helper-second l) (car (cdr l)))", "(define (helper-div a b) (/ a b))", "(define (helper-ref v k) (vector-ref v k))",
+           "(define (helper-call f x) (f x))", "(define (helper-loop n) (if (= n 0) (car n) (helper-loop (- n 1))))"]
+
+
 def fault_form(rng):
     """a top-level form that fails, with the fault textually inside it; -> (AST, kind, site token or None)"""
-    kind = rng.choice(["Unbound", "Unbound", "UnboundAssign", "NonProcedure", "NonProcedure", "WrongType", "DivByZero", "IndexRange", "Arity", "ImmutableVector"])
-    if kind == "Unbound":
+    kind = rng.choice(["Unbound", "Unbound", "UnboundAssign", "NonProcedure", "NonProcedure", "WrongType", "DivByZero", "IndexRange", "Arity", "ImmutableVector",
+                       "Elsewhere", "Elsewhere", "Elsewhere"])
+    if kind == "Elsewhere":
+        # the faulting operation is executed INSIDE a procedure written elsewhere - a helper defined by an earlier form
+        # (HELPERS) or a procedure of the bundled library - but the form whose evaluation fails is this one
+        f, kind = rng.choice([(S.app("cadr", S.app("list", S.lit(1))), "WrongType"), (S.app("caddr", S.quote(S.vlist([S.vint(1), S.vint(2)]))), "WrongType"),
+                              (S.app("list-ref", S.app("list", S.lit(1), S.lit(2)), S.lit(5)), "WrongType"),
+                              (S.app("list-tail", S.app("list", S.lit(1)), S.lit(3)), "WrongType"),
+                              (S.app("fold-left", S.var("+"), S.lit(0), S.quote(S.vlist([S.vint(1), S.vsym("x")]))), "WrongType"),
+                              (S.app("map", S.var("car"), S.quote(S.vlist([S.vint(1), S.vint(2)]))), "WrongType"),
+                              (S.app("helper-second", S.app("list", S.lit(1))), "WrongType"),
+                              (S.app("helper-div", S.lit(7), S.lit(0)), "DivByZero"),
+                              (S.app("helper-ref", S.app("vector", S.lit(1)), S.lit(4)), "IndexRange"),
+                              (S.app("helper-call", S.var("cons"), S.lit(1)), "Arity"),
+                              (S.app("helper-call", S.lam(["p", "q"], [S.var("p")]), S.lit(1)), "Arity"),
+                              (S.app("helper-loop", S.lit(3)), "WrongType")])
+        site = None
+    elif kind == "Unbound":
         f, site = S.var(SITE_VAR), SITE_VAR
     elif kind == "UnboundAssign":
         f, site = S.set_(SITE_VAR, S.lit(1)), None          # the statement names identifier/operator for reads and calls; assignment: anywhere in the form
@@ -162,6 +182,7 @@ def run(ctx):
                                                              '(define ml-text (list "a\nb" #\( #\; "\n\n"))',
                                                              '(define ml-text \'("x ; y\n" "(((\n"))']))
         f, kind, site = fault_form(rng)
+        pre = HELPERS + pre if "helper-" in S.render(f) else pre
         ftext = S.render(f)
         if rng.random() < 0.2 and not ftext.startswith("(define"):
             ftext = '(begin "two\nlines (" %s)' % ftext
